@@ -726,6 +726,49 @@ example : let g := injectBranching (spliceAll [0, 1] demo0)
     oneParent g = true ∧
     armShape g 17 .ehDefault true [0, 1] = true ∧ armShape g 18 (.eh 3) false [0, 1] = true := by decide
 
+/-! ### a clause that does *not* hold: "every failure is handled"
+
+`handler_once` needs the Err arm of the failed node to be entered. The generated code does not always enter
+it: a node that only an error arm needs is emitted in the basic block in front of the `MatchBranching` node
+of *that* arm's parent (the visitor takes every node that can reach one of the block's terminals, error
+terminals included), so its `Result` is computed — and, if the arm is not entered, never inspected.
+Witness (↔ corpus/C06/006, reproduced on the real pavexc): `c0` is only needed by the error handler of `c1`.
+
+positions: 0 shared input · 1 `c0` · 2 `c1` · 3 `match c1` · 4 Err(c1) · 5 `match c0` · 6 Err(c0) · 7 `Error::new` ·
+8 default handler · 9 into_response · 10 Ok(c0) · 11 x0 (handler of c1's error, takes `&T0`) · 12 into_response ·
+13 Ok(c1) · 14 `h0` · 15 into_response -/
+def swallowed : Graph :=
+  ⟨[.input, .ctor 0, .ctor 1, .branch, .errMatch, .branch, .errMatch, .errorNew, .ehDefault, .intoResponse,
+    .okMatch, .eh 0, .intoResponse, .okMatch, .handler 0, .intoResponse],
+   [⟨0, 1, .shared⟩, ⟨0, 2, .shared⟩, ⟨1, 5, .move⟩, ⟨5, 6, .move⟩, ⟨5, 10, .move⟩, ⟨6, 7, .move⟩, ⟨7, 8, .shared⟩,
+    ⟨8, 9, .move⟩, ⟨2, 3, .move⟩, ⟨3, 4, .move⟩, ⟨3, 13, .move⟩, ⟨4, 11, .shared⟩, ⟨10, 11, .shared⟩, ⟨11, 12, .move⟩,
+    ⟨13, 14, .shared⟩, ⟨14, 15, .move⟩]⟩
+
+/-- the full-strength reading of "the error handler runs exactly once on that error": whenever a component
+    returned `Err`, an error handler ran. -/
+def every_failure_handled_statement : Prop :=
+  ∀ (g : Graph) (fails : Kind → Bool), armsWF g = true → (runGraph g fails).1.stuck = false →
+    ∀ e ∈ outOf g fails (runGraph g fails).1, (∃ n k, e = .fail n k) →
+      ∃ e' ∈ outOf g fails (runGraph g fails).1, isEh e'.kind = true
+
+/-- **finding**: it is false for the faithful model (and for the real code: known finding
+    `C06-swallowed-speculative-failure`): `c0` fails, nobody looks at its `Result`, the request is served
+    normally. What holds is `handler_once`: *if the Err arm is entered*, its handler runs exactly once. -/
+theorem every_failure_handled_statement_false : ¬ every_failure_handled_statement := by
+  intro h
+  have := h swallowed (fun k => k == .ctor 0) (by decide) (by decide) (.fail 1 (.ctor 0)) (by decide) ⟨1, .ctor 0, rfl⟩
+  revert this
+  decide
+
+-- the run in question: `c0` fails, `c1` and the handler run, no error arm is entered
+example : outOf swallowed (fun k => k == .ctor 0) (runGraph swallowed (fun k => k == .ctor 0)).1 =
+    [.call 0 .input, .fail 1 (.ctor 0), .call 2 (.ctor 1), .call 14 (.handler 0), .call 15 .intoResponse] ∧
+    (runGraph swallowed (fun k => k == .ctor 0)).1.errs = [] := by decide
+-- when `c1` fails as well, the arm that needs `T0` is entered and `c0`'s error is the one that is handled
+example : let fails := fun k => k == Kind.ctor 0 || k == Kind.ctor 1
+    (outOf swallowed fails (runGraph swallowed fails).1).filter (fun e => isEh e.kind) = [.call 8 .ehDefault] := by
+  decide
+
 /-! ### non-vacuity of part (3): the route `h0` of `demo` behind `wrap m2`, `pre m3` and `post m1` -/
 
 def gPost : Graph := ⟨[.input, .mw 1, .intoResponse], [⟨0, 1, .move⟩, ⟨1, 2, .move⟩]⟩
